@@ -120,7 +120,11 @@ def tree_ns(expanded):
 D = datetime.date
 DEC = decimal.Decimal
 
-# (name, source, [ns builders])
+def app_error(base):
+    return type('AppError', (base,), {})
+
+
+# (name, source, [ns builders] [, constructor options: cls / encoding])
 FEATURES = [
     ('var-plain', 'a<dtml-var x>b',
      [lambda: dict(x='v<1>'), lambda: dict(x=T('v<1>')),
@@ -300,6 +304,50 @@ FEATURES = [
      [lambda: dict(seq=objs(DEC('2.5'), DEC('1.5'))),
       lambda: dict(seq=objs(True, False, True)),
       lambda: dict(seq=objs(lambda: 2, lambda: 1))]),
+    ('in-expr-reverse', '[<dtml-in "seq" reverse><dtml-var sequence-item>,'
+                        '</dtml-in>|<dtml-in expr="seq" reverse_expr="rv">'
+                        '<dtml-var sequence-item>;</dtml-in>|<dtml-in "seq" '
+                        'size=2 reverse><dtml-var sequence-item></dtml-in>]',
+     [lambda: dict(seq=['a', 'b', 'c'], rv=1), lambda: dict(seq=[1, 2], rv=0),
+      lambda: dict(seq=[], rv=1)]),
+    ('try-samename', '[<dtml-try><dtml-var f><dtml-except LookupError>L'
+                     '<dtml-except ValueError>V<dtml-except>O</dtml-try>]',
+     [lambda: dict(f=raiser(app_error(LookupError))),
+      lambda: dict(f=raiser(app_error(ValueError))),
+      lambda: dict(f=raiser(app_error(RuntimeError)))]),
+    ('commas-equal-values', '[<dtml-var x fmt=comma-numeric>|<dtml-var x '
+                            'thousands_commas>|<dtml-var x fmt=dollars-and-cents>]',
+     [lambda: dict(x=1000), lambda: dict(x=1000.0),
+      lambda: dict(x=DEC('1000.00'))]),
+    ('equal-values', '[<dtml-var x>|&dtml-x;|<dtml-var x upper>|<dtml-var x '
+                     'size=3>|<dtml-var "x">|<dtml-if x>t</dtml-if>]',
+     [lambda: dict(x=1), lambda: dict(x=True), lambda: dict(x=1.0)]),
+    ('in-batch-literal-lengths', '[<dtml-in seq size=3 orphan=2><dtml-var '
+                                 'sequence-item><dtml-if sequence-end>'
+                                 '<dtml-if next-sequence>+</dtml-if></dtml-if>'
+                                 '</dtml-in>|<dtml-in seq start=2 size=2 '
+                                 'overlap=1><dtml-var sequence-number>'
+                                 '</dtml-in>]',
+     [lambda: dict(seq=list('abcdefghijkl')), lambda: dict(seq=list('abcd')),
+      lambda: dict(seq=list('abcdefg'))]),
+    ('in-nested-same-name', '[<dtml-in seq size=2><dtml-var sequence-item>'
+                            '<dtml-if sequence-end>(<dtml-in seq size=1>'
+                            '<dtml-var sequence-item></dtml-in>)</dtml-if>'
+                            '</dtml-in>]',
+     [lambda: dict(seq=list('abcde')), lambda: dict(seq=iter('pqrst')),
+      lambda: dict(seq=(c for c in 'xy'))]),
+    ('hq-latin1', '[&dtml-x;|<dtml-var x html_quote>|<dtml-var x>.]',
+     [lambda: dict(x=b'caf\xc3\xa9 <'), lambda: dict(x='caf\xe9 <'),
+      lambda: dict(x=b'\xe9')], {'encoding': 'latin-1'}),
+    ('hq-utf8', '[&dtml-x;|<dtml-var x html_quote>|<dtml-var x>.]',
+     [lambda: dict(x=b'caf\xc3\xa9 <'), lambda: dict(x='caf\xe9 <'),
+      lambda: dict(x=b'\xc3\xa9')], {'encoding': 'utf-8'}),
+    ('mixed-syntax-as-html', 'a %(x)s <dtml-var x> %(y)s b',
+     [lambda: dict(x=1, y=2), lambda: dict(x='<', y='>'),
+      lambda: dict(x=None, y='')]),
+    ('mixed-syntax-as-string', 'a %(x)s <dtml-var x> %(y)s b',
+     [lambda: dict(x=1, y=2), lambda: dict(x='<', y='>'),
+      lambda: dict(x=None, y='')], {'cls': 'String'}),
     ('bytes-join', '<dtml-var a><dtml-var b>',
      [lambda: dict(a=b'\xc3\xa9', b=b'x'), lambda: dict(a='\xe9', b=b'\xc3\xa9'),
       lambda: dict(a=1, b=None)]),
